@@ -148,6 +148,111 @@ pub fn features_final(f: &mut HistFeatures, sim: &mut Sim) {
 }
 
 impl PoolHist {
+    /// C03's corollary: a trader who swaps an amount out and back (through 1-3 pools, closing through
+    /// any pool that holds both denoms or by retracing the path) never ends with more than they had.
+    #[allow(clippy::too_many_arguments)]
+    fn round_trip(&self, sim: &mut Sim, f: &mut HistFeatures, st: &mut Stats, user: u8, pool: u16, offer: u8, path: &[(u16, u8)], ppm: u32, close: u16) -> Result<(), String> {
+        use crate::poolview::PoolView;
+        let obs = sim.obs();
+        let funded: Vec<PoolView> = obs.pools.values().filter(|p| p.all_reserves_positive()).cloned().collect();
+        if funded.is_empty() {
+            return Ok(());
+        }
+        let p0 = &funded[pick(pool, funded.len())];
+        let oi = offer as usize % p0.n();
+        let start = p0.denoms[oi].clone();
+        let who = sim.user(user);
+        let label = format!("user{}", (user as usize).min(3));
+        let label = if (user as usize) < 4 { label } else { "owner".to_string() };
+        let amount = crate::pool::ops::Amt::Rel { ppm }.resolve(p0.reserves[oi]).min(sim.w.balance(&who, &start));
+        if amount == 0 {
+            return Ok(());
+        }
+        let before = obs.snap.clone();
+        // plan the legs, all inside pool p0: start -> d1 -> (d2 ->) ... -> start. Only a trip confined
+        // to one pool is implied by "no swap lowers the pool's invariant" (between pools whose prices
+        // differ, a profitable loop is ordinary arbitrage, not a defect).
+        let _ = close;
+        let mut legs: Vec<(String, String, String)> = vec![];
+        let mut cur_i = oi;
+        let mut picks: Vec<u8> = vec![path.first().map(|h| h.1).unwrap_or(0)];
+        for h in path.iter().skip(1) {
+            picks.push(h.1);
+        }
+        for ap in picks.iter() {
+            let next_i = (cur_i + 1 + *ap as usize % (p0.n() - 1)) % p0.n();
+            if next_i == oi {
+                break;
+            }
+            legs.push((p0.id.clone(), p0.denoms[cur_i].clone(), p0.denoms[next_i].clone()));
+            cur_i = next_i;
+        }
+        if legs.is_empty() {
+            let next_i = (oi + 1) % p0.n();
+            legs.push((p0.id.clone(), p0.denoms[oi].clone(), p0.denoms[next_i].clone()));
+            cur_i = next_i;
+        }
+        legs.push((p0.id.clone(), p0.denoms[cur_i].clone(), start.clone()));
+        let mut amt = amount;
+        let mut hops_known: Vec<&'static str> = vec![];
+        let mut pools_used = std::collections::BTreeSet::new();
+        let mut all_cp = true;
+        for (k, (pid, din, dout)) in legs.iter().enumerate() {
+            let b0 = sim.w.balance(&who, dout);
+            let step = sim.step(&POp::SwapExact { user, pool_id: pid.clone(), offer_denom: din.clone(), ask_denom: dout.clone(), amount: amt });
+            classify(&step, st);
+            features_update(f, &step);
+            run_monitors(&self.mon, sim, &step, st)?;
+            if !step.ok() {
+                st.bump("round trips abandoned (a leg was refused)");
+                let _ = k;
+                return Ok(());
+            }
+            if let Ok((execs, _)) = swap_execs(&step) {
+                for x in execs.iter() {
+                    if matches!(x.before.kind, Kind::Ss { .. }) {
+                        all_cp = false;
+                    }
+                    if let Ok(Some((key, _))) = classify_swap_value(x, "round trip") {
+                        hops_known.push(key);
+                    }
+                }
+            }
+            pools_used.insert(pid.clone());
+            amt = sim.w.balance(&who, dout) - b0;
+            if amt == 0 {
+                break;
+            }
+        }
+        let after = sim.obs().snap;
+        let b_start0 = before.bal(&label, &start);
+        let b_start1 = after.bal(&label, &start);
+        st.bump("round trips completed");
+        st.mark();
+        if legs.len() >= 3 {
+            st.bump("round trips with >= 3 legs");
+        }
+        if b_start1 > b_start0 {
+            let msg = format!("[C03] round trip by {label}: swapped {amount} {start} through {:?} and ended with {} more than they started with", legs, b_start1 - b_start0);
+            if !all_cp && !hops_known.is_empty() {
+                st.known(hops_known[0], || msg);
+            } else {
+                return Err(msg);
+            }
+        }
+        // nothing else was gained on the way
+        for ((who_l, d), v1) in after.balances.iter() {
+            if who_l == &label && d != &start && *v1 > before.bal(&label, d) {
+                let gained = *v1 - before.bal(&label, d);
+                // proceeds of a leg that returned 0 stay with the trader: only possible when the trip broke off
+                if amt != 0 {
+                    return Err(format!("[C03] round trip by {label} through {:?}: gained {gained} {d} on the way", legs));
+                }
+            }
+        }
+        Ok(())
+    }
+
     /// run a history; `after` lets a property add its own per-history bookkeeping
     pub fn run_history(&self, case: &PoolCase, st: &mut Stats) -> Result<HistFeatures, String> {
         let mut sim = Sim::new(&case.cfg);
@@ -168,6 +273,10 @@ impl PoolHist {
             }
         }
         for op in case.ops.iter() {
+            if let POp::RoundTrip { user, pool, offer, path, ppm, close } = op {
+                self.round_trip(&mut sim, &mut f, st, *user, *pool, *offer, path, *ppm, *close)?;
+                continue;
+            }
             let step = sim.step(op);
             classify(&step, st);
             features_update(&mut f, &step);
